@@ -51,6 +51,60 @@ m.main(argv)
 '''
 
 
+DRIVER_PIPELINE = r'''
+import sys, json, logging
+logging.disable(logging.CRITICAL)
+from picked_group_fdr.pipeline import pipeline
+from picked_group_fdr.digestion_params import DigestionParams
+spec = json.loads(sys.argv[1])
+if spec["step"] == "update_evidence":
+    pipeline.run_update_evidence(spec["evs"], spec["pouts"], spec["outs"], "andromeda", False)
+else:
+    pipeline.run_andromeda_to_pin(spec["evs"], spec["fastas"], spec["outdir"], [DigestionParams() for _ in spec["evs"]], False)
+'''
+
+
+def run_pipeline_driver(spec, strace_out=None):
+    import json
+    cmd = [sys.executable, "-W", "ignore", "-c", DRIVER_PIPELINE, json.dumps(spec)]
+    if strace_out:
+        cmd = ["strace", "-f", "-e", "trace=openat,rename,renameat,renameat2,unlink,unlinkat,truncate,ftruncate", "-o", strace_out] + cmd
+    p = subprocess.run(cmd, stdout=subprocess.PIPE, stderr=subprocess.PIPE, text=True, timeout=300, cwd=core.scratch())
+    return p.returncode, p.stderr
+
+
+def driver_skip(r, step, d, argv, have_strace, stats):
+    """the GUI / pipeline driver (pipeline.run_update_evidence, pipeline.run_andromeda_to_pin) relies on the steps' skip: a second
+    pass of the driver over existing outputs must not touch them"""
+    outdir = os.path.join(d, "driver_out")
+    os.makedirs(outdir, exist_ok=True)
+    if step == "update_evidence":
+        i = argv.index("--mq_evidence_out")
+        evs = argv[1:i]
+        pouts = argv[argv.index("--perc_results") + 1:] if "--perc_results" in argv else []
+        if not pouts:
+            return None
+        outs = [os.path.join(outdir, f"evidence_{k}.txt") for k in range(len(evs))]
+        spec = {"step": step, "evs": evs, "pouts": pouts, "outs": outs}
+    else:
+        outs = [os.path.join(outdir, "pin_0.tab")]
+        spec = {"step": step, "evs": [argv[0]], "fastas": [argv[argv.index("-F") + 1]], "outdir": outdir}
+    rc, err = run_pipeline_driver(spec)
+    if rc != 0 or not all(os.path.exists(o) for o in outs):
+        return ("harness-error", f"{step}: pipeline driver run failed: {err[-300:]}")
+    before = {o: (open(o, "rb").read(), os.stat(o).st_mtime_ns, os.stat(o).st_ino) for o in outs}
+    tr = os.path.join(d, "trace_driver.txt")
+    rc, err = run_pipeline_driver(spec, strace_out=tr if have_strace else None)
+    stats["driver_reruns"] = stats.get("driver_reruns", 0) + 1
+    for o in outs:
+        now = (open(o, "rb").read(), os.stat(o).st_mtime_ns, os.stat(o).st_ino) if os.path.exists(o) else None
+        touched = abstract_trace(tr, o) if have_strace else []
+        if now != before[o] or os.path.exists(o + ".tmp") or touched:
+            return ("property-failure", f"{step} through the pipeline driver: an existing final output was touched by a second pass "
+                                        f"(operations on it: {touched}; bytes/mtime/inode changed: {now != before[o]})")
+    return None
+
+
 def step_inputs(step, d, rng):
     """returns (argv, final output path)"""
     if step == "update_evidence":
@@ -161,6 +215,10 @@ def run(r: core.Runner):
                     (have_strace and abstract_trace(tr2, out)):
                 r.violation("property-failure", {"suite": "existing_output", "step": step, "argv": argv}, True,
                             f"{step}: an existing final output was touched by a re-run")
+                return
+            dv = driver_skip(r, step, d, argv, have_strace, stats)
+            if dv:
+                r.violation(dv[0], {"suite": "pipeline_driver", "step": step, "argv": argv}, dv[0] == "property-failure", dv[1])
                 return
             # kill at every row write, before and after the rename; then re-run and compare bytes
             points = [("row", i) for i in range(0, n_rows + 1)] + [("before_rename", 0), ("after_rename", 0)]
